@@ -146,6 +146,13 @@ def check_mapper_constructors(fx, rep, rule):
             cases.append((nm, p, want()))
     for nm, p, want in cases:
         rep.fn(p)
+        if p == bp:
+            # the builder inlined into this constructor: its two parameters are the builder's (the builder rules read the mapping
+            # and the flag from them by position)
+            ok_sig = len([prm for prm in fx.bodies[p]["params"] if prm.get("pat")]) == 2 and (fx.bodies[p]["params"][1].get("ty") or "") == "bool"
+            rep.check(rule, "%s/mapper-constructor/%s" % (rule, nm), ok_sig, loc=F.short_file(fx.bodies[p]["sp"]),
+                      found="%s is the builder itself" % nm, expected="(mapping, flag) -> built mapper", nontrivial=False)
+            continue
         sy = S.Sym(fx, opaque=lambda q: q == bp)
         res = sy.eval_body(fx.bodies[p])
         names = [prm["pat"]["name"] for prm in fx.bodies[p]["params"] if prm.get("pat")]
